@@ -464,6 +464,9 @@ CORPUS = [
     (["a: \"E  N  C  [PK CS7,%s\"\n" % _E(b"inside")[10:]], True),
     (["a: E\n\n\n\n\n\n  N\n  C\n  %s\n" % _E(b"plain multi-line")[3:]], True),
     (["k: &x \"                %s\"\nl:\n  - *x\n" % _E(b"padded and shared")], True),
+    # C19_encrypt_calls_refuted (F19a): a value encrypted four times under the old key inside an aliased list:
+    # two positions, four visits, every visit peels one layer; status 0, one real encryption
+    (["- &c\n  - %s\n- *c\n" % _E(_E(_E(_E(b"x").encode()).encode()).encode())], False),
     # not encrypted by the rule: a tab is not ignored
     (["a: \"\\t%s\"\nb: \"x%s\"\n" % (_E(b"tab"), _E(b"letter"))], True),
 ]
@@ -549,25 +552,32 @@ def tables(docs):
             if not is_eyaml(v):
                 continue
             c = clean(str(v)).rstrip()
-            for k in ("old", "new"):
-                p = dec_bytes(k, c) if c.isascii() else None
-                dec[(k, c)] = p
-            p = dec[("old", c)]
-            if p is None:
-                continue
-            out = p if p.endswith(b"\n") else p + b"\n"
-            try:
-                retval = out.decode("ascii").rstrip()
-            except UnicodeDecodeError:
-                continue
-            if not retval:
-                continue
-            e = enc_text("new", retval.encode("ascii"))
-            enc[("new", retval)] = e
-            for k in ("old", "new"):        # a value reached twice (shared container) is decrypted again
-                dec.setdefault((k, e), dec_bytes(k, e))
-            for f in ("string", "block"):
-                lay[(f, e)] = layout(f, e)
+            for _depth in range(8):
+                for k in ("old", "new"):
+                    p = dec_bytes(k, c) if c.isascii() else None
+                    dec[(k, c)] = p
+                p = dec[("old", c)]
+                if p is None:
+                    break
+                out = p if p.endswith(b"\n") else p + b"\n"
+                try:
+                    retval = out.decode("ascii").rstrip()
+                except UnicodeDecodeError:
+                    break
+                if not retval:
+                    break
+                if is_eyaml(retval):
+                    # F19a: a plaintext that carries the marker is stored as it is; a position reached
+                    # again (aliased container) is then decrypted once more: follow the chain
+                    c = clean(retval).rstrip()
+                    continue
+                e = enc_text("new", retval.encode("ascii"))
+                enc[("new", retval)] = e
+                for k in ("old", "new"):        # a value reached twice (shared container) is decrypted again
+                    dec.setdefault((k, e), dec_bytes(k, e))
+                for f in ("string", "block"):
+                    lay[(f, e)] = layout(f, e)
+                break
     rows = lambda t: " ".join("(%s %s %s)" % (k, hexs(a), "none" if r is None else hexs(r)) for (k, a), r in t.items())  # noqa
     return "(%s) (%s) (%s)" % (rows(dec), rows(enc), rows(lay))
 
@@ -600,7 +610,10 @@ def requests(case):
         sx, e = docenc.encode(data)
         folded = [e.oid(v) for _, v in leaves(data) if isinstance(v, _ENV["Folded"])]
         parts.append("(doc %s i%d (%s))" % (sx, len(e.oids), " ".join("i%d" % o for o in sorted(set(folded)))))
-    return ["(rotate-run (%s) %s)" % (" ".join(parts), tables([f["data"] for f in pre if f["kind"] == "doc"]))]
+    # second request: the hypothesis [loaded_doc] of the document-level theorems (Inv, keys_ok, container
+    # at the root), EVALUATED by the extracted boolean c19_loaded_doc_b on every document encoded above
+    return ["(rotate-run (%s) %s)" % (" ".join(parts), tables([f["data"] for f in pre if f["kind"] == "doc"])),
+            "(loaded-doc-b (%s))" % " ".join(parts)]
 
 
 def run_real(case):
@@ -724,7 +737,14 @@ def observe(case):
         parts.append("(file (doc %s) (changed %s) (rotated (%s)))" % (
             sexp_str(canon_doc(sexp_parse(sx))), "true" if changed else "false", " ".join(rotated)))
     end = raise_line(r["exc"]) if crashed else "(exit i%d)" % r["status"]
-    return ["(run (%s) (end %s))" % (" ".join(parts), end)]
+    # what the theorems assume of every loaded document whose root is a hash or a list: Inv, keys_ok,
+    # loaded_doc all true (a document that is one scalar is outside loaded_doc: it is never searched)
+    hyp = []
+    for f in pre_of(case):
+        if f["kind"] == "doc":
+            container = isinstance(f["data"], (dict, list))
+            hyp.append("(true true %s)" % ("true" if container else "false"))
+    return ["(run (%s) (end %s))" % (" ".join(parts), end), "(hyp (%s))" % " ".join(hyp)]
 
 
 # ---- the property on the implementation's own files ----------------------------------------------
